@@ -7,7 +7,7 @@ GOENV = "PATH=/opt/veriftools/go1.26/bin:$PATH GOFLAGS=-mod=mod GOPROXY=off GOSU
 CHECKS = {
  "C01": dict(
    technique="ground-truth-by-construction monitor: generated multi-controller projects run through the real CLI (3.0.0 and 3.1.0); paths.* of each emitted spec compared both ways with the operations derived from the project descriptor",
-   text="Runtime monitoring of the real `gleece generate spec` child process on 80 (thorough 800) generated projects x 2 OpenAPI versions: controllers spread over files and packages, shared and parameterised prefixes, doubled/trailing/missing slashes, same path on several verbs, hidden/deprecated/non-endpoint methods, same-named controllers in different packages. The oracle is the descriptor the project was rendered from (verb, normalised path, operationId, tag, deprecation), read with our own JSON reader. Exploration over generated projects only. Also generated: controllers without @Route / any doc comment, @Hidden with an argument, template-equivalent twins (same shape, other verb, differently named {variables}), half of the runs over a much longer stale output file.",
+   text="Runtime monitoring of the real `gleece generate spec` child process on 80 (thorough 800) generated projects x 2 OpenAPI versions: controllers spread over files and packages, shared and parameterised prefixes, doubled/trailing/missing slashes, same path on several verbs, hidden/deprecated/non-endpoint methods, same-named controllers in different packages. The oracle is the descriptor the project was rendered from (verb, normalised path, operationId, tag, deprecation), read with our own JSON reader. Exploration over generated projects only. Also generated: controllers without @Route / any doc comment, @Hidden with an argument, template-equivalent twins (same shape, other verb, differently named {variables}), half of the runs over a much longer stale output file. Round 3 added: controllers declared inside a documented type ( ... ) block, package-qualified fields in front of the embedded controller, a globbed nested package sorting between two files of one controller, the same verb + method route under two prefixes.",
    note="Trusts the renderer writing what the descriptor says and the path normal form of DESIGN A.1; projects gleece rejects are counted as vacuous (acceptance floor 50%).",
    ref="DESIGN.md §5 C01"),
  "C04": dict(
@@ -17,12 +17,12 @@ CHECKS = {
    ref="DESIGN.md §5 C04"),
  "C06": dict(
    technique="ground-truth-by-construction monitor: every documented operation of both spec versions compared with the contract (parameters, requiredness, bodies, responses) derived from the generated method signature",
-   text="Runtime monitoring of the real CLI on 80 (thorough 800) generated projects x 2 versions, ~850 operations per quick run over >400 distinct signature shapes: parameter lists over all five locations plus context, pointer x location x validator requiredness matrix, wire-name aliases, enums/aliases/query slices, JSON and form bodies, every return shape, custom error types, @Response/@ErrorResponse. Oracle = descriptor-derived contract (DESIGN A.3-A.5) read with our own JSON reader. Exploration only. Also generated: grouped parameter fields (a, b, c T followed by an own field of the same type), repeated @ErrorResponse codes in front of further codes, boundary constants of every integer width in enums.",
+   text="Runtime monitoring of the real CLI on 80 (thorough 800) generated projects x 2 versions, ~850 operations per quick run over >400 distinct signature shapes: parameter lists over all five locations plus context, pointer x location x validator requiredness matrix, wire-name aliases, enums/aliases/query slices, JSON and form bodies, every return shape, custom error types, @Response/@ErrorResponse. Oracle = descriptor-derived contract (DESIGN A.3-A.5) read with our own JSON reader. Exploration only. Also generated: grouped parameter fields (a, b, c T followed by an own field of the same type), repeated @ErrorResponse codes in front of further codes, boundary constants of every integer width in enums. User types named context.Context in look-alike packages are generated too (a user struct named Time exposed known finding KF-C06-01).",
    note="Trusts the type->schema table and the requiredness rule as transcribed from the statement; validation keywords inside schemas are C11's subject, not judged here.",
    ref="DESIGN.md §5 C06"),
  "C07": dict(
    technique="ground-truth-by-construction monitor: components.schemas of both spec versions compared with the reachability closure and per-declaration schemas derived from the generated type graph",
-   text="Runtime monitoring of the real CLI on 70 (thorough 600) generated type graphs x 2 versions: self-recursive and acyclic struct graphs over several packages, embedded structs (allOf), enums of eight basic kinds incl. '='-style, aliases, nested slices, maps, time/bytes/any, unexported and json:\"-\" fields, decoy constants and unreachable decoy types, usage-site validators on enum-typed fields (the non-interference clause: the shared component must still list all declared constants). Oracle = declarations in the descriptor (DESIGN A.4/A.6). Exploration only. Also: same-named types in several packages (known finding KF-C07-01), boundary enum constants (int64/uint64 extremes, read without float rounding) and a metamorphic stage - every 4th project is a clone of its predecessor without usage-site @Deprecated / descriptions / validators, and the components of the field types must be the same JSON in both.",
+   text="Runtime monitoring of the real CLI on 70 (thorough 600) generated type graphs x 2 versions: self-recursive and acyclic struct graphs over several packages, embedded structs (allOf), enums of eight basic kinds incl. '='-style, aliases, nested slices, maps, time/bytes/any, unexported and json:\"-\" fields, decoy constants and unreachable decoy types, usage-site validators on enum-typed fields (the non-interference clause: the shared component must still list all declared constants). Oracle = declarations in the descriptor (DESIGN A.4/A.6). Exploration only. Also: same-named types in several packages (known finding KF-C07-01), boundary enum constants (int64/uint64 extremes, read without float rounding) and a metamorphic stage - every 4th project is a clone of its predecessor without usage-site @Deprecated / descriptions / validators, and the components of the field types must be the same JSON in both. The metamorphic stage also decorates time.Time / []byte fields of one of two structs; error models may embed another struct with error last.",
    note="Presence of a component for a type reachable only from hidden routes, and of Rfc7807Error when no route returns plain error, is not judged; enum values compared by printed form.",
    ref="DESIGN.md §5 C07"),
  "C08": dict(
@@ -32,7 +32,7 @@ CHECKS = {
    ref="DESIGN.md §5 C08"),
  "C10": dict(
    technique="perturbation monitor with verdict-by-construction: well-formed generated projects plus one descriptor edit tagged with the rule it breaks; real in-process Validate() diagnostics, CLI exit status and before/after file snapshots are judged against the tag",
-   text="Runtime monitoring on 132 (thorough 1320) cases: 33 operators (P1-P16 each break one rule the statement names; P17-P21 blocking-half/warning cases; P0, P3, PC1-PC4 positive controls) applied to a dedicated Target method embedded at a random position of a random multi-controller project rendered at random vertical offsets. Soundness (ill-linked => error diagnostic), completeness (well-formed => no rejection) and blocking (error diagnostic => exit!=0 and nothing created below dist/) are judged separately. Exploration over the operator catalogue x generated contexts. Since extended to 51 operators: decorated doubles (an error next to a warning on one annotation), PX1-PX5 (two link defects reached through several checks, a grouped field spanning source lines), PE1-PE3 (last result not embedding error, alone and next to a same-named valid error type of another package, both directions); a third of the cases get a well-formed sibling whose route overlaps the Target's.",
+   text="Runtime monitoring on 132 (thorough 1320) cases: 33 operators (P1-P16 each break one rule the statement names; P17-P21 blocking-half/warning cases; P0, P3, PC1-PC4 positive controls) applied to a dedicated Target method embedded at a random position of a random multi-controller project rendered at random vertical offsets. Soundness (ill-linked => error diagnostic), completeness (well-formed => no rejection) and blocking (error diagnostic => exit!=0 and nothing created below dist/) are judged separately. Exploration over the operator catalogue x generated contexts. Since extended to 51 operators: decorated doubles (an error next to a warning on one annotation), PX1-PX5 (two link defects reached through several checks, a grouped field spanning source lines), PE1-PE3 (last result not embedding error, alone and next to a same-named valid error type of another package, both directions); a third of the cases get a well-formed sibling whose route overlaps the Target's. Round 3 added PS0-PS3 (slices in query/header/path/form) and PM1 (enforce flag, unsecured route in another file than its controller).",
    note="The operator catalogue (DESIGN Appendix H) is the ground truth; rejections through a hard error rather than a diagnostic are counted, not judged.",
    ref="DESIGN.md §5 C10, Appendix H"),
  "C11": dict(
@@ -42,22 +42,22 @@ CHECKS = {
    ref="DESIGN.md §5 C11"),
  "C18": dict(
    technique="diagnostic-position monitor: every diagnostic of the real in-process Validate() on perturbed projects is checked against the renderer's position map (file, 0-based rune range, entity extent, code/severity/anchor table) and the Run() error text is scanned for repeats",
-   text="Runtime monitoring on 108 (thorough 1080) perturbed projects (27 operators of Appendix H) rendered at random vertical offsets with multibyte noise above and inside comments, several controllers per file and several files: ~250 diagnostics per quick run over 17 codes. Exact anchor ranges are required for the 20 operators with a documented code (value ranges, {param} sub-ranges, whole-line ranges, parameter ranges). Exploration only. Since extended to 43 operators (decorated doubles, PX1-PX5 incl. a grouped field spanning source lines, overlapping twins adding route-conflict warnings); duplicates are searched in the diagnostics list and in the error text.",
+   text="Runtime monitoring on 108 (thorough 1080) perturbed projects (27 operators of Appendix H) rendered at random vertical offsets with multibyte noise above and inside comments, several controllers per file and several files: ~250 diagnostics per quick run over 17 codes. Exact anchor ranges are required for the 20 operators with a documented code (value ranges, {param} sub-ranges, whole-line ranges, parameter ranges). Exploration only. Since extended to 43 operators (decorated doubles, PX1-PX5 incl. a grouped field spanning source lines, overlapping twins adding route-conflict warnings); duplicates are searched in the diagnostics list and in the error text. Round 3 added PM1, PS1-PS3, PE1 and Target routes whose parameter name also occurs as literal text before its {placeholder}.",
    note="Positions are the renderer's own bookkeeping (0-based lines, rune columns). One known finding (entity block repeated per error diagnostic, pinned by test/diagnostics) is cause-attested.",
    ref="DESIGN.md §5 C18, Appendix H"),
  "C19": dict(
    technique="history monitor on a long-lived session: call histories over GenerateGraph/Validate/GenerateIntermediate/Run on ONE GleecePipeline, every step's canonical metadata, spec bytes, diagnostics and graph census compared with the first pass and with a brand-new pipeline (iteration order pinned via hook H1)",
-   text="Runtime monitoring in child processes (one per project x history): 30 (thorough 250) 'fullspec' projects x 3 (thorough 6) histories such as GVIGVIGVIF, GGVIIF, RRRF, FRGIF; validation-failing projects get G/V-only histories. ~700 steps per quick run. Detects cache-served answers that differ from fresh ones, graph growth across passes, serial/identifier drift. Exploration over histories. Every 3rd project carries a controller in a file the globs do not match inside a package that is only loaded on demand: it must not appear on any pass.",
+   text="Runtime monitoring in child processes (one per project x history): 30 (thorough 250) 'fullspec' projects x 3 (thorough 6) histories such as GVIGVIGVIF, GGVIIF, RRRF, FRGIF; validation-failing projects get G/V-only histories. ~700 steps per quick run. Detects cache-served answers that differ from fresh ones, graph growth across passes, serial/identifier drift. Exploration over histories. Every 3rd project carries a controller in a file the globs do not match inside a package that is only loaded on demand: it must not appear on any pass. Hidden (unexported / json:\"-\") fields sit at random positions of the models.",
    note="Order-insensitive canonical form of GleeceFlattenedMetadata; iteration orders pinned to canonical through VERIF_ORDER=canon so that C13's order dependence cannot masquerade as a cache defect.",
    ref="DESIGN.md §5 C19"),
  "C13": dict(
    technique="byte-comparison monitor under forced iteration orders (hook H1 at the three map/packages.Load sites: all k! permutations for k<=4, seeded shuffles + reversal otherwise, joint shuffles) plus hook-free fresh-process repetitions, engine sweep and date-comment run",
-   text="Runtime monitoring of the real CLI: 10 (thorough 60) multi-controller / multi-file / multi-package projects x ~35-90 runs each; spec and routes bytes of every run are compared with the canonical-order reference; the evidence lists how many distinct orders were actually forced per site (from the hook trace) and how many distinct outputs were seen. Exploration of the order space, exhaustive only for sites with <=4 elements. Every 3rd project has three sibling controller packages (api/v1..v3) declaring a struct of one shared name; half use generateEnumValidator; four canonical-order runs under GOMAXPROCS 1/2/5/64 perturb the parse schedule; a warm-process stage repeats the reference generation as the SECOND invocation inside one process whose first invocation used a template extension / a template override / another engine.",
+   text="Runtime monitoring of the real CLI: 10 (thorough 60) multi-controller / multi-file / multi-package projects x ~35-90 runs each; spec and routes bytes of every run are compared with the canonical-order reference; the evidence lists how many distinct orders were actually forced per site (from the hook trace) and how many distinct outputs were seen. Exploration of the order space, exhaustive only for sites with <=4 elements. Every 3rd project has three sibling controller packages (api/v1..v3) declaring a struct of one shared name; half use generateEnumValidator; four canonical-order runs under GOMAXPROCS 1/2/5/64 perturb the parse schedule; a warm-process stage repeats the reference generation as the SECOND invocation inside one process whose first invocation used a template extension / a template override / another engine. A used-output-directory run (re-indented equivalent spec and longer routes file already present, outputFilePerms set) and a warm-process variant that rewrites ONE config path between two in-process invocations were added in round 3.",
    note="Assumes the three H1 sites capture the pipeline's iteration-order freedom; hook-free repetitions (Go's own map randomisation) are an independent net for anything else.",
    ref="DESIGN.md §5 C13, §4 H1"),
  "C14": dict(
    technique="process-outcome monitor: ~300 (thorough ~2500) child-process runs of the real CLI over four hostile input grammars x commands, classified by exit status, crash signatures in stderr, promised artifacts, watchdog, and the hook-H2 materialisation trace (re-entrancy / nesting-depth safety check)",
-   text="Runtime monitoring without a reference model: every run must end with exit 0 and its artifacts or exit 1 and a message. Inputs: 45 unsupported/unusual Go constructs (alone and combined), 72 malformed annotation lines, the 22 validator rule names x 15 malformed values x 16 field types plus raw random tags, every leaf of the configuration replaced by 12 type-confused values or removed, raw malformed config files, template overrides, odd command lines. The thorough tier runs half of the validator-tag grammar against a -race build (checkptr). Exploration of the input grammars; 'never loops' is restated as: terminates under a 150 s watchdog (re-run alone with 400 s before it counts) and no declaration is materialised re-entrantly. Later additions: an annotation x property x ill-typed-value matrix (sampled in the quick tier), generic structs with unexported / json:\"-\" / embedded fields, array lengths given by constants and expressions, multi-name const specs, every subset of the four oauth2 flows x both spec versions.",
+   text="Runtime monitoring without a reference model: every run must end with exit 0 and its artifacts or exit 1 and a message. Inputs: 45 unsupported/unusual Go constructs (alone and combined), 72 malformed annotation lines, the 22 validator rule names x 15 malformed values x 16 field types plus raw random tags, every leaf of the configuration replaced by 12 type-confused values or removed, raw malformed config files, template overrides, odd command lines. The thorough tier runs half of the validator-tag grammar against a -race build (checkptr). Exploration of the input grammars; 'never loops' is restated as: terminates under a 150 s watchdog (re-run alone with 400 s before it counts) and no declaration is materialised re-entrantly. Later additions: an annotation x property x ill-typed-value matrix (sampled in the quick tier), generic structs with unexported / json:\"-\" / embedded fields, array lengths given by constants and expressions, multi-name const specs, every subset of the four oauth2 flows x both spec versions. Round 3 added: types from packages whose import path ends in v / v2 / v0 / keyword-like names, doc blocks starting with bare // lines, validators on enum/alias/pointer-typed parameters in every location x both versions.",
    note="No oracle beyond process outcomes; hangs are only reported after a second watchdog hit in isolation.",
    ref="DESIGN.md §5 C14, §4 H2"),
  "C15": dict(
@@ -72,7 +72,7 @@ CHECKS = {
    ref="DESIGN.md §5 C16"),
  "C17": dict(
    technique="reference-model monitor over operation histories: every public query of the real SymbolGraph read back after every operation and compared with a set-of-nodes/set-of-edges model; failing histories delta-debugged",
-   text="Runtime monitoring of the real SymbolGraph: all histories of <=3 (thorough <=4) operations over a 55-letter alphabet plus 20k (thorough 400k) random histories of up to 60 operations (typed adders, two edge kinds between a pair, self loops, cycles, file-version bumps, RemoveEdge(kind|nil), RemoveNode cascades); after each operation Exists/Get/GetEdges(in,out,filtered)/Children/Parents/Descendants/FindByKind on all keys must equal the 40-line model. Exploration of histories; ambiguity zones are counted, not judged. The enumerated alphabet uses the kinds ty and typaram (one a textual prefix of the other), random histories all 15 declared edge kinds.",
+   text="Runtime monitoring of the real SymbolGraph: all histories of <=3 (thorough <=4) operations over a 55-letter alphabet plus 20k (thorough 400k) random histories of up to 60 operations (typed adders, two edge kinds between a pair, self loops, cycles, file-version bumps, RemoveEdge(kind|nil), RemoveNode cascades); after each operation Exists/Get/GetEdges(in,out,filtered)/Children/Parents/Descendants/FindByKind on all keys must equal the 40-line model. Exploration of histories; ambiguity zones are counted, not judged. The enumerated alphabet uses the kinds ty and typaram (one a textual prefix of the other), random histories all 15 declared edge kinds. Re-inserting an existing edge is bracketed by an ordered fingerprint (edge ordinals, ordinal-sorted children/parents) that must not change; every other file version differs from its predecessor only in the content hash.",
    note="Trusts the executable model of DESIGN A.10; references always carry the live node's file version (stale-version references are an explicit ambiguity zone).",
    ref="DESIGN.md §5 C17"),
 }
@@ -85,13 +85,13 @@ CHECKS["C20"] = dict(
 
 CHECKS["C09"] = dict(
    technique="compiler-as-oracle monitor: every routes file left behind by a successful `generate routes` run for each of the five engines and three flag combinations is parsed, compiled with `go build` against the engine, the user's controller packages and an instrumented authorization package, and checked against gofmt",
-   text="Runtime monitoring of the real CLI plus the Go toolchain on 16 (thorough 120) generated projects x 5 engines: hostile identifier names (template locals, package names, predeclared identifiers, colliding lower-camel forms), same-base-name types from several packages, map/time/any/[]byte/nested-slice/[]*T values, custom error types by value and pointer, security, experimental flags. Failures are attributed to a cause from the descriptor and the first compiler diagnostics so that the three known findings cannot hide an unrelated compile or formatting defect. Exploration only. Also: same-named enum/struct types from two packages used under the same parameter name, user types named context.Context / time.Time in packages named alike, hyphenated and non-canonical wire names, grouped parameter fields, a body model using the generated enum validator tag.",
+   text="Runtime monitoring of the real CLI plus the Go toolchain on 16 (thorough 120) generated projects x 5 engines: hostile identifier names (template locals, package names, predeclared identifiers, colliding lower-camel forms), same-base-name types from several packages, map/time/any/[]byte/nested-slice/[]*T values, custom error types by value and pointer, security, experimental flags. Failures are attributed to a cause from the descriptor and the first compiler diagnostics so that the three known findings cannot hide an unrelated compile or formatting defect. Exploration only. Also: same-named enum/struct types from two packages used under the same parameter name, user types named context.Context / time.Time in packages named alike, hyphenated and non-canonical wire names, grouped parameter fields, a body model using the generated enum validator tag. Every 8th project spells one verb in lower case (must be rejected, not half accepted).",
    note="go build and go/format are trusted; the gofmt finding is only matched when the file differs from its gofmt form solely by removed blank lines, in-line alignment and order inside the merged import block.",
    ref="DESIGN.md §5 C09")
 
 CHECKS["C05"] = dict(
    technique="trace-checking monitor over generated routers: instrumented controller methods record the arguments they receive (JSONL event log, per-request ids in a header); an offline checker compares them with the values sent, computed through Go's own typed conversions; refusals checked by status and absence of a call event; thorough tier adds an 8-goroutine pass under the race detector",
-   text="Runtime monitoring of real generated code: 8 (thorough 80) compile-safe projects x 5 engines (gin, echo, mux, chi via ServeHTTP+httptest, fiber via app.Test), ~2000 request evaluations per quick run over >200 distinct (parameter-list shape x request class) cells: typical/boundary/zero values of every integer width, float extremes, URL-reserved and multibyte strings, wire-name aliases, query slices, enums, aliases, pointers present/absent, JSON and form bodies, context parameters (token set by a before-operation middleware), per-parameter omission, unconvertible/out-of-range values, validator violations, malformed bodies. Exploration only. Also: same-named decoys (well-typed values) in every location a parameter is NOT declared in, alone and combined with omission; hyphenated path names and non-canonical header aliases; one grouped field of three names followed by a same-typed own field; a third of the projects with generateEnumValidator and a body model tagged with the generated validator over awkward enum constants (R&D, a<b>c, it's); boundary enum constants up to 2^64-1.",
+   text="Runtime monitoring of real generated code: 8 (thorough 80) compile-safe projects x 5 engines (gin, echo, mux, chi via ServeHTTP+httptest, fiber via app.Test), ~2000 request evaluations per quick run over >200 distinct (parameter-list shape x request class) cells: typical/boundary/zero values of every integer width, float extremes, URL-reserved and multibyte strings, wire-name aliases, query slices, enums, aliases, pointers present/absent, JSON and form bodies, context parameters (token set by a before-operation middleware), per-parameter omission, unconvertible/out-of-range values, validator violations, malformed bodies. Exploration only. Also: same-named decoys (well-typed values) in every location a parameter is NOT declared in, alone and combined with omission; hyphenated path names and non-canonical header aliases; one grouped field of three names followed by a same-typed own field; a third of the projects with generateEnumValidator and a body model tagged with the generated validator over awkward enum constants (R&D, a<b>c, it's); boundary enum constants up to 2^64-1. With validateTopLevelOnlyEnum (every 4th project) a same-named alias/enum pair shares a method and non-member values must be refused; query aliases contain & < > '.",
    note="Path values use canonical URL encoding and no '+' (echo/chi route on RawPath for over-escaped paths, fiber's UnescapePath turns '+' into a blank: engine matters); an absent optional parameter that carries a validator is not exercised (unstated).",
    ref="DESIGN.md §5 C05, Appendix B")
 
@@ -103,13 +103,13 @@ CHECKS["C02"] = dict(
 
 CHECKS["C03"] = dict(
    technique="trace-checking monitor over generated routers: the instrumented authorization callback logs every consultation and decision (policy scripted per request through a header), controller bodies / before-operation and input-validation middlewares / request-body reads log events with a global sequence number; an offline checker requires approvals of one whole effective alternative before any of them; thorough tier replays from 8 goroutines under the race detector",
-   text="Runtime monitoring of real generated routers on the five engines: 8 (thorough 80) projects with method-, controller- and default-level security (1-3 alternatives, repeated schemes, 0-3 scopes); per route every scripted callback behaviour (approve all, refuse all with 401/418/custom payload, refuse exactly alternative i, approve only alternative i, different statuses per alternative) x (valid request, missing required parameter, unconvertible value, malformed body): ~3400 request evaluations per quick run over ~360 distinct (engine, #alternatives, authorised?, invalid?, policy shape) cells. Exploration only. Every 4th project inherits a default security with an empty scope list, another 4th has two verbs on one path with different method-level security; @Security lines carry free text containing '})'.",
+   text="Runtime monitoring of real generated routers on the five engines: 8 (thorough 80) projects with method-, controller- and default-level security (1-3 alternatives, repeated schemes, 0-3 scopes); per route every scripted callback behaviour (approve all, refuse all with 401/418/custom payload, refuse exactly alternative i, approve only alternative i, different statuses per alternative) x (valid request, missing required parameter, unconvertible value, malformed body): ~3400 request evaluations per quick run over ~360 distinct (engine, #alternatives, authorised?, invalid?, policy shape) cells. Exploration only. Every 4th project inherits a default security with an empty scope list, another 4th has two verbs on one path with different method-level security; @Security lines carry free text containing '})'. Scopes contain & < > ' (each engine must hand them to the callback unescaped); controllers may sit in grouped type declarations.",
    note="The effective security of a route is computed from the project descriptor (method overrides controller overrides default). body_read is not observable under fiber's app.Test; which refusal status wins among several refusing alternatives is judged by membership only.",
    ref="DESIGN.md §5 C03, Appendix B")
 
 CHECKS["C12"] = dict(
    technique="differential trace-checking monitor: the five generated routers of one project are driven in one process with identical requests; per request id the tuple (calls, controller.method, recorded arguments, status, body parsed as JSON) from the JSONL event log must be equal on all engines; thorough tier adds a 4-goroutine pass under the race detector",
-   text="Runtime monitoring of real generated routers (gin/echo/mux/chi through ServeHTTP+httptest, fiber through app.Test): 8 (thorough 80) projects, half with validateResponsePayload, ~850 compared requests per quick run over ~800 distinct (request class, parameter shape, status) cells: valid/boundary/zero values, omitted / unconvertible / validator-violating parameters, malformed bodies, operation behaviours err/status/header/errstatus with plain and custom error types, authorization refusals (401/418/custom payload) and hostile variants without a reference answer (repeated/empty/unknown query keys, empty header values, wrong/missing/parameterised content types, empty/null/array/scalar/trailing-garbage bodies, repeated form keys). Exploration only; no reference model, only disagreement is judged. Also: same-named well-typed decoys in the other locations, whitespace-only and padded bodies, every alternative refused with its own status/payload, only-first / only-last alternative approving, a third of the projects with generateEnumValidator and an enum-tagged body model.",
+   text="Runtime monitoring of real generated routers (gin/echo/mux/chi through ServeHTTP+httptest, fiber through app.Test): 8 (thorough 80) projects, half with validateResponsePayload, ~850 compared requests per quick run over ~800 distinct (request class, parameter shape, status) cells: valid/boundary/zero values, omitted / unconvertible / validator-violating parameters, malformed bodies, operation behaviours err/status/header/errstatus with plain and custom error types, authorization refusals (401/418/custom payload) and hostile variants without a reference answer (repeated/empty/unknown query keys, empty header values, wrong/missing/parameterised content types, empty/null/array/scalar/trailing-garbage bodies, repeated form keys). Exploration only; no reference model, only disagreement is judged. Also: same-named well-typed decoys in the other locations, whitespace-only and padded bodies, every alternative refused with its own status/payload, only-first / only-last alternative approving, a third of the projects with generateEnumValidator and an enum-tagged body model. A body model with two independently validated fields is violated in both at once.",
    note="All engines receive the same *http.Request in-process; response headers are observed, not judged (the statement names status and body). Path values use canonical encoding and no '+' as in C05.",
    ref="DESIGN.md §5 C12, Appendix B")
 
